@@ -982,13 +982,13 @@ def explore(run_path, max_paths=2000, wall_s=120.0, solver_timeout_ms=20000):
     (the frontier is then not empty: the unwinding assertion fails)."""
     todo = [[]]
     results = []
-    t0 = time.time()
+    t0 = time.process_time()      # CPU seconds: the budget does not depend on machine load
     stats = {"paths": 0, "queries": 0, "solver_s": 0.0, "forks": 0, "aborted": 0}
     while todo:
         if stats["paths"] >= max_paths:
             raise Inconclusive(f"path budget {max_paths} exhausted with {len(todo)} prefixes left")
-        if time.time() - t0 > wall_s:
-            raise Inconclusive(f"wall budget {wall_s}s exhausted with {len(todo)} prefixes left")
+        if time.process_time() - t0 > wall_s:
+            raise Inconclusive(f"CPU budget {wall_s}s exhausted with {len(todo)} prefixes left")
         prefix = todo.pop()
         ctx = Ctx(prefix, timeout_ms=solver_timeout_ms)
         Ctx.cur = ctx
